@@ -394,8 +394,8 @@ func (w *World) checkCommit(ci *fakepg.CommitInfo) {
 		if prev >= 0 && ic.num <= prev {
 			w.violate("cursor-not-advancing", "pair %s position went %d -> %d", ps.key, prev, ic.num)
 		}
-		if ic.num-from+1 > int64(max(ps.src.plan.Batch, 1)) {
-			w.violate("step-too-large", "pair %s advanced by %d blocks with batch size %d", ps.key, ic.num-from+1, ps.src.plan.Batch)
+		if ic.num-from+1 > int64(max(ps.src.batch, 1)) {
+			w.violate("step-too-large", "pair %s advanced by %d blocks with batch size %d", ps.key, ic.num-from+1, ps.src.batch)
 		}
 		if ps.src.node.Reorgs == 0 {
 			w.checkInserted(ps, ci, from, ic)
@@ -436,7 +436,7 @@ func (w *World) inferOrigin(ps *pairState, ci *fakepg.CommitInfo, ic curRow) int
 	for k := range n.Announced {
 		var num int64
 		fmt.Sscanf(k, "%d/", &num)
-		if num <= ic.num && ic.num-num+1 <= int64(max(ps.src.plan.Batch, 1)) {
+		if num <= ic.num && ic.num-num+1 <= int64(max(ps.src.batch, 1)) {
 			cands = append(cands, num)
 		}
 	}
